@@ -87,7 +87,7 @@ func contentClasses(r *lp.Rng, n int) [][]byte {
 }
 
 func segLengths(r *lp.Rng) []int {
-	ls := []int{0, 1, 2, 3, 15, 16, 17, 255, 256, 257, 4095, 4096, 65535, 65536, 131070, 131071}
+	ls := []int{0, 1, 2, 3, 15, 16, 17, 255, 256, 257, 4095, 4096, 65535, 65536, 65555, 65560, 131070, 131071}
 	n := 12
 	if thorough() {
 		n = 200
@@ -165,6 +165,10 @@ func runC06(res *lp.Result) {
 		rd := bytes.NewReader(all)
 		dec, err := codecs[cname].DecodeSegment(rd)
 		if err != nil {
+			if cname == "lz4" && lz4LibraryFails(p) {
+				res.Add(lp.Finding{Kind: "violation", What: lz4LibraryWhat + ": encoded segment does not decode", Input: id + " payload=" + hx(p[:minInt(len(p), 64)])})
+				return
+			}
 			res.Add(lp.Finding{Kind: "violation", What: "encoded segment does not decode: " + firstWords(err.Error()), Input: id + " payload=" + hx(p[:minInt(len(p), 64)])})
 			return
 		}
@@ -376,6 +380,84 @@ func runC07(res *lp.Result) {
 			}
 		}
 	}
+	// targeted search for low-weight codewords of the CRC-24 AS IMPLEMENTED: for many real headers, every change of up to three
+	// header bits that leaves the transmitted length alone (flag, padding, and for the LZ4 layout the uncompressed-length
+	// field), combined with the change of the CRC field that the implementation's own CRC makes of it; if together they flip
+	// at most 7 bits, the corrupted segment carries a matching CRC and is handed to the real decoder
+	{
+		popcount := func(x uint32) int {
+			n := 0
+			for ; x != 0; x &= x - 1 {
+				n++
+			}
+			return n
+		}
+		bases := 400
+		if thorough() {
+			bases = 6000
+		}
+		for _, cname := range []string{"none", "lz4"} {
+			hl, lo, hi := 3, 17, 24
+			if cname == "lz4" {
+				hl, lo, hi = 5, 17, 40
+			}
+			for b := 0; b < bases; b++ {
+				var p []byte
+				if b%2 == 0 {
+					p = rng.Bytes(rng.Intn(3000))
+				} else {
+					p = bytes.Repeat([]byte{byte(b)}, 1+rng.Intn(40000))
+				}
+				seg := &segment.Segment{Header: &segment.Header{IsSelfContained: b%3 == 0}, Payload: &segment.Payload{UncompressedData: p}}
+				var buf bytes.Buffer
+				if err := codecs[cname].EncodeSegment(seg, &buf); err != nil {
+					continue
+				}
+				enc := buf.Bytes()
+				var d uint64
+				for i := 0; i < hl; i++ {
+					d |= uint64(enc[i]) << (8 * uint(i))
+				}
+				old := crc.ChecksumKoopman(d, hl)
+				res.Count("crc24-collision-search/bases")
+				var bits []int
+				for x := lo; x < hi; x++ {
+					bits = append(bits, x)
+				}
+				tryPattern := func(sel []int) {
+					e := uint64(0)
+					for _, x := range sel {
+						e |= 1 << uint(x)
+					}
+					nc := crc.ChecksumKoopman(d^e, hl)
+					if w := popcount(nc ^ old); len(sel)+w <= 7 {
+						c := append([]byte{}, enc...)
+						for _, x := range sel {
+							flip(c, x)
+						}
+						for k := 0; k < 24; k++ {
+							if (nc^old)>>uint(k)&1 == 1 {
+								flip(c, 8*hl+k)
+							}
+						}
+						try(cname, c, fmt.Sprintf("header bits %v and %d CRC-24 bits: %d flips in all", sel, w, len(sel)+w))
+						res.Count("crc24-collision-search/candidates")
+					}
+				}
+				for i := 0; i < len(bits); i++ {
+					tryPattern([]int{bits[i]})
+					for j := i + 1; j < len(bits); j++ {
+						tryPattern([]int{bits[i], bits[j]})
+						if cname == "none" || thorough() {
+							for k := j + 1; k < len(bits); k++ {
+								tryPattern([]int{bits[i], bits[j], bits[k]})
+							}
+						}
+					}
+				}
+			}
+		}
+	}
 	// the CRC functions themselves against the model (and an independent reference): the detection theorems are about
 	// exactly these functions
 	{
@@ -417,7 +499,7 @@ func runC08(res *lp.Result) {
 		"must return the input exactly. The wrapper logic of the model is compared on the same inputs (block codecs as oracles). " +
 		"Non-trivial = non-empty input; distinct by (algorithm, format, length, class)."
 	rng := lp.NewRng(*seed)
-	sizes := []int{0, 1, 2, 3, 7, 8, 9, 15, 16, 17, 63, 64, 65, 255, 256, 1000, 4095, 4096, 65535, 65536, 131071}
+	sizes := []int{0, 1, 2, 3, 7, 8, 9, 15, 16, 17, 63, 64, 65, 255, 256, 1000, 4095, 4096, 65535, 65536, 65555, 65560, 131071}
 	n := 20
 	if thorough() {
 		n = 400
@@ -487,6 +569,10 @@ func runC08(res *lp.Result) {
 						continue
 					}
 					out, err := dec(z)
+					if err != nil && c.name == "lz4" && lz4LibraryFails(in) {
+						res.Add(lp.Finding{Kind: "violation", What: lz4LibraryWhat + ": " + format + " round trip fails", Input: id})
+						continue
+					}
 					if err != nil {
 						res.Add(lp.Finding{Kind: "violation", What: c.name + " " + format + ": decompress(compress(x)) fails: " + firstWords(err.Error()), Input: id,
 							Impl: fmt.Sprintf("compressed to %d bytes", len(z))})
